@@ -85,7 +85,7 @@ def connection_part(ctx, thorough):
     for seed in range(n_seeds):
         for mode in ("handshake", "zero_rtt", "migration"):
             runs.append(("scenario", f"{rng.seed()}/{seed}/{mode}", mode))
-        for kind in ("client_0rtt_pto", "server_silent_client", "server_close", "ping_full_window", "three_addresses"):
+        for kind in ("client_0rtt_pto", "server_silent_client", "server_close", "ping_full_window", "three_addresses", "cert_sizes"):
             runs.append(("directed", f"{rng.seed()}/{seed}", kind))
     for how, seed, mode in runs:
         tap = BuilderTap()
@@ -105,7 +105,7 @@ def connection_part(ctx, thorough):
         for k, v in orc.n.items():
             orc_n[k] = orc_n.get(k, 0) + v
         ctx.count((how, seed, mode), orc.n["unvalidated_sends"] > 0 or orc.n["padded"] > 0)
-        for kind, text in orc.problems[:2]:
+        for kind, text in orc.problems:
             witness_once(ctx, f"wire: {text}", replay, {"oracle": "wire", "kind": kind})
         # every builder call of the real connections, replayed on the model
         lines = [l for c in tap.cases for l in c[0]]
@@ -179,7 +179,11 @@ def main(tier):
         "like connection.py, 30% arbitrary: correspondence only). connection: handshake / 0-RTT / migration schedules under "
         "loss, duplication, reordering, junk datagrams from three addresses, client rebinding, random close(), three "
         "max_datagram_size pairs; directed: silent peer + odd-sized junk + PTO, 0-RTT with a full window, application close "
-        "with the budget used up, three client addresses (migration to B, the server challenges B, the PATH_RESPONSE and later "
+        "with the budget used up; server certificate chains of four sizes (in-memory EC leaf alone / +1 / +5 intermediates, "
+        "the repo's RSA chain) x a client never heard from again (own address, spoofed source, replayed first Initial, junk) "
+        "over 6-10 PTO rounds, and the same chains in the random handshake / migration schedules; after every call the "
+        "endpoint's bytes_sent / bytes_received per unvalidated path are compared with the harness's own per-address counts of "
+        "the datagrams actually exchanged; three client addresses (migration to B, the server challenges B, the PATH_RESPONSE and later "
         "packets arrive from a never-challenged C or a spoofed source; validation ops are derived from the wire: a Handshake "
         "packet from the address, or a PATH_RESPONSE -> the path the challenge was SENT to), application PINGs with the window full of stream data; spoofed-source Initials (valid "
         "Initial keys, third address), send_ping() at random. Both endpoints' path ledgers and budgets are replayed on "
